@@ -264,6 +264,12 @@ func (p *Prog) atoms(e ast.Expr, val bool, env *Env, frozen map[types.Object]boo
 					out = append(out, p.atoms(d.Rhs, val, d.Env, nil, depth+1)...)
 				}
 			} else if d != nil && d.Rhs != nil && d.Idx >= 0 && d.Kind == DefAssign {
+				// the boolean among several results of a module function: what that answer implies
+				if call, isCall := unparen(d.Rhs).(*ast.CallExpr); isCall {
+					if sig, isSig := p.TypeOf(call.Fun).(*types.Signature); isSig && sig.Results().Len() > 1 {
+						out = append(out, p.impliedByCallK(call, d.Idx, sig.Results().Len(), val, d.Env, depth)...)
+					}
+				}
 				// one of several results of a helper that only computes and returns them
 				if ut, ok := p.Unwrap(Term{E: d.Rhs, Env: d.Env, Idx: d.Idx}); ok {
 					if b, isB := p.TypeOf(x).Underlying().(*types.Basic); isB && b.Info()&types.IsBoolean != 0 {
